@@ -12,8 +12,12 @@ same functions by the correspondence check (`Drivers/PyFuns.lean`, `harness/pyfu
 
 What is modelled: `None`, `bool`, `int`, `str`, lists, objects with named attributes; names, attribute access,
 `not`/`and`/`or` with Python's operand-returning short-circuit semantics and truthiness, comparisons on atoms,
-`+`/`-` on integers, the string methods `strip`/`lower`, calls of external functions (a parameter of `run`),
-assignment, `if`, `for … else` with `break`/`continue`, `return`, `raise <Class>`.  Anything else makes the
+`in`/`not in` (a string in a list of strings or among the keys of a dict), `+`/`-` on integers, subscripts (dict by
+string key, list by index), `len`, the string methods `strip`/`lower`, calls of external functions and of methods of
+objects (a parameter of `run`; they may raise), assignment to names and to attributes of named objects, `if`,
+`for … else` with `break`/`continue`, `try … except <Class>` with a bare `raise` in the handler, `return`,
+`raise <Class>`.  Objects are values: an attribute assignment `self.x = v` rebinds `self` to the updated object (no
+aliasing between names is modelled; the translated functions read their other names only).  Anything else makes the
 translator emit `unsupported`, on which `run` is `stuck`, so that no theorem can silently hold of a construct the
 interpreter does not understand.
 -/
@@ -30,7 +34,7 @@ inductive Val where
 deriving Repr, Inhabited
 
 inductive CmpOp where
-  | eq | ne | lt | le | gt | ge
+  | eq | ne | lt | le | gt | ge | isIn | notIn
 deriving Repr, DecidableEq, Inhabited
 
 inductive Expr where
@@ -48,11 +52,17 @@ inductive Expr where
   | sub (a b : Expr)
   | method (recv : Expr) (m : String) (args : List Expr)
   | call (f : String) (args : List Expr)
+  | callm (recv : Expr) (m : String) (args : List Expr)   -- a method of an object: external `.m` with the receiver first
+  | subscript (e : Expr) (k : Expr)
+  | opaqueStr                                              -- an f-string: some text no decision may depend on
   | unsupported (what : String)
 deriving Repr, Inhabited
 
 inductive Stmt where
   | assign (x : String) (e : Expr)
+  | setattr (obj : String) (field : String) (e : Expr)
+  | try (body : List Stmt) (handlers : List (String × List Stmt))
+  | reraise
   | expr (e : Expr)
   | ifs (c : Expr) (t : List Stmt) (e : List Stmt)
   | for (x : String) (iter : Expr) (body : List Stmt) (orelse : List Stmt)
@@ -72,8 +82,17 @@ deriving Repr, Inhabited
 
 abbrev Env := List (String × Val)
 
-/-- External functions (`time_util.utc_now`, `calendar.timegm`, …): a parameter, never interpreted. -/
-abbrev Ext := String → List Val → Option Val
+/-- Result of evaluating an expression. -/
+inductive R (α : Type) where
+  | ok (a : α)
+  | raise (cls : String)
+  | stuck (why : String)
+deriving Repr, Inhabited
+
+/-- External functions (`time_util.utc_now`, `calendar.timegm`, `validate_before`, methods of objects under the name
+    `.method` with the receiver as first argument, …): a parameter, never interpreted.  They may raise; an unknown
+    one is `stuck`. -/
+abbrev Ext := String → List Val → R Val
 
 /-- Python truthiness. -/
 def truthy : Val → Bool
@@ -83,13 +102,6 @@ def truthy : Val → Bool
   | .str s => s != ""
   | .list xs => !xs.isEmpty
   | .obj _ => true
-
-/-- Result of evaluating an expression. -/
-inductive R (α : Type) where
-  | ok (a : α)
-  | raise (cls : String)
-  | stuck (why : String)
-deriving Repr, Inhabited
 
 def lookup (env : Env) (x : String) : Option Val := (env.find? (fun p => p.1 == x)).map (·.2)
 
@@ -115,7 +127,32 @@ def cmpVals (op : CmpOp) (a b : Val) : R Val :=
   | .eq, .str _, .int _ | .eq, .int _, .str _ | .eq, .none, .bool _ | .eq, .bool _, .none => .ok (.bool false)
   | .ne, .none, .str _ | .ne, .str _, .none | .ne, .none, .int _ | .ne, .int _, .none
   | .ne, .str _, .int _ | .ne, .int _, .str _ | .ne, .none, .bool _ | .ne, .bool _, .none => .ok (.bool true)
+  | .isIn, .str x, .list ys => .ok (.bool (ys.any fun y => match y with | .str t => t == x | _ => false))
+  | .notIn, .str x, .list ys => .ok (.bool (!(ys.any fun y => match y with | .str t => t == x | _ => false)))
+  | .isIn, .str x, .obj fs => .ok (.bool (fs.any fun p => p.1 == x))
+  | .notIn, .str x, .obj fs => .ok (.bool (!(fs.any fun p => p.1 == x)))
   | _, _, _ => .stuck "comparison"
+
+/-- `e[k]`: a dict (an object's fields) by string key, a list by integer index. -/
+def subscriptVals (a k : Val) : R Val :=
+  match a, k with
+  | .obj fs, .str x => match (fs.find? (fun p => p.1 == x)).map (·.2) with
+    | some v => .ok v
+    | none => .raise "KeyError"
+  | .list xs, .int i => if i < 0 then .stuck "negative index" else
+    match xs[i.toNat]? with
+    | some v => .ok v
+    | none => .raise "IndexError"
+  | _, _ => .stuck "subscript"
+
+/-- Built-in functions. -/
+def builtin (f : String) (args : List Val) : Option (R Val) :=
+  match f, args with
+  | "len", [.list xs] => some (.ok (.int xs.length))
+  | "len", [.str s] => some (.ok (.int s.length))
+  | "len", [.obj fs] => some (.ok (.int fs.length))
+  | "len", [_] => some (.raise "TypeError")
+  | _, _ => none
 
 /-- String methods; `strip` is given as a parameter so that the model's `pyStrip` can be plugged in. -/
 def strMethod (strip : String → String) (m : String) (recv : Val) (args : List Val) : R Val :=
@@ -200,11 +237,28 @@ def evalExpr (strip : String → String) (ext : Ext) : Nat → Env → Expr → 
       | .stuck w => .stuck w
     | .call f args =>
       match evalArgs strip ext fuel env args with
-      | .ok vs => match ext f vs with
-        | some v => .ok v
-        | none => .stuck ("external " ++ f)
+      | .ok vs => match builtin f vs with
+        | some r => r
+        | none => ext f vs
       | .raise c => .raise c
       | .stuck w => .stuck w
+    | .callm recv m args =>
+      match evalExpr strip ext fuel env recv with
+      | .ok r => match evalArgs strip ext fuel env args with
+        | .ok vs => ext ("." ++ m) (r :: vs)
+        | .raise c => .raise c
+        | .stuck w => .stuck w
+      | .raise c => .raise c
+      | .stuck w => .stuck w
+    | .subscript e k =>
+      match evalExpr strip ext fuel env e with
+      | .ok a => match evalExpr strip ext fuel env k with
+        | .ok kv => subscriptVals a kv
+        | .raise c => .raise c
+        | .stuck w => .stuck w
+      | .raise c => .raise c
+      | .stuck w => .stuck w
+    | .opaqueStr => .ok (.str "<f-string>")
     | .unsupported w => .stuck ("unsupported expression " ++ w)
 
 def evalArgs (strip : String → String) (ext : Ext) : Nat → Env → List Expr → R (List Val)
@@ -226,9 +280,16 @@ inductive Flow where
   | brk (env : Env)
   | cont (env : Env)
   | ret (v : Val)
-  | raise (cls : String)
+  | raise (cls : String) (env : Env)     -- the environment when the exception left the statement (handlers see it)
   | stuck (why : String)
 deriving Repr, Inhabited
+
+/-- Replace (or add) a field of an object value. -/
+def setField (fs : List (String × Val)) (f : String) (v : Val) : List (String × Val) :=
+  (f, v) :: fs.filter (fun p => p.1 != f)
+
+/-- The reserved name under which a handler finds the exception it is handling (for a bare `raise`). -/
+def excVar : String := "$exc"
 
 /-- `for x in xs: body else: orelse` given the meaning of one iteration of the body; structural in the list. -/
 def forLoop (body : Env → Val → Flow) (orelse : Env → Flow) : List Val → Env → Flow
@@ -239,7 +300,7 @@ def forLoop (body : Env → Val → Flow) (orelse : Env → Flow) : List Val →
     | .cont env' => forLoop body orelse vs env'
     | .brk env' => .normal env'
     | .ret r => .ret r
-    | .raise c => .raise c
+    | .raise c e => .raise c e
     | .stuck w => .stuck w
 
 mutual
@@ -250,34 +311,53 @@ def evalStmt (strip : String → String) (ext : Ext) : Nat → Env → Stmt → 
     | .assign x e =>
       match evalExpr strip ext fuel env e with
       | .ok v => .normal (setVar env x v)
-      | .raise c => .raise c
+      | .raise c => .raise c env
       | .stuck w => .stuck w
+    | .setattr o f e =>
+      match evalExpr strip ext fuel env e with
+      | .ok v => match lookup env o with
+        | some (.obj fs) => .normal (setVar env o (.obj (setField fs f v)))
+        | some _ => .stuck "attribute assignment on a non-object"
+        | none => .raise "NameError" env
+      | .raise c => .raise c env
+      | .stuck w => .stuck w
+    | .try body handlers =>
+      match evalBlock strip ext fuel env body with
+      | .raise c env' =>
+        match handlers.find? (fun h => h.1 == "Exception" || h.1 == c) with
+        | some h => evalBlock strip ext fuel (setVar env' excVar (.str c)) h.2
+        | none => .raise c env'
+      | other => other
+    | .reraise =>
+      match lookup env excVar with
+      | some (.str c) => .raise c env
+      | _ => .stuck "bare raise outside a handler"
     | .expr e =>
       match evalExpr strip ext fuel env e with
       | .ok _ => .normal env
-      | .raise c => .raise c
+      | .raise c => .raise c env
       | .stuck w => .stuck w
     | .ifs c t e =>
       match evalExpr strip ext fuel env c with
       | .ok v => if truthy v then evalBlock strip ext fuel env t else evalBlock strip ext fuel env e
-      | .raise c => .raise c
+      | .raise c => .raise c env
       | .stuck w => .stuck w
     | .for x iter body orelse =>
       match evalExpr strip ext fuel env iter with
       | .ok (.list vs) =>
         forLoop (fun env v => evalBlock strip ext fuel (setVar env x v) body)
                 (fun env => evalBlock strip ext fuel env orelse) vs env
-      | .ok .none => .raise "TypeError"
+      | .ok .none => .raise "TypeError" env
       | .ok _ => .stuck "iteration over a non-list"
-      | .raise c => .raise c
+      | .raise c => .raise c env
       | .stuck w => .stuck w
     | .ret none => .ret .none
     | .ret (some e) =>
       match evalExpr strip ext fuel env e with
       | .ok v => .ret v
-      | .raise c => .raise c
+      | .raise c => .raise c env
       | .stuck w => .stuck w
-    | .raise cls => .raise cls
+    | .raise cls => .raise cls env
     | .brk => .brk env
     | .cont => .cont env
     | .pass => .normal env
@@ -307,7 +387,7 @@ def run (strip : String → String) (ext : Ext) (f : FunDef) (args : List Val) :
   match evalBlock strip ext defaultFuel (f.params.zip args).reverse f.body with
   | .normal _ => .value .none          -- falling off the end returns None
   | .ret v => .value v
-  | .raise c => .raised c
+  | .raise c _ => .raised c
   | .brk _ => .stuck "break outside a loop"
   | .cont _ => .stuck "continue outside a loop"
   | .stuck w => .stuck w
